@@ -66,7 +66,7 @@ def rule_case(func, lin, vert, cnt, reord, mo, group):
         out = proto.err_name(e)
         res = None
     genc = gram.enc_grammar(g)
-    lines = [Line("corr", "binarize", [reord or "none", gram.enc_markov(mo), genc], out)]
+    lines = [Line("corr", "binarize", [reord or "none", gram.enc_markov(mo), genc], out, canon=gram.canon_grammar)]
     if res is not None:
         lines.append(Line("pred", "P.C07.rule", [reord or "none", gram.enc_markov(mo), gram.enc_func(func), gram.enc_lin(lin),
                                                  gram.enc_vert(vert), out]))
@@ -108,7 +108,7 @@ def grammar_case(rng):
         l2.expect = "binarization-must-not-fail"
         return Case("treebank-grammar", {"trees": [proto.pretty_tree(t) for t in ts], "reordering": reord, "markov": mo}, [l, l2], nontrivial=True)
     out = gram.enc_grammar(res)
-    lines = [Line("corr", "binarize", [reord or "none", gram.enc_markov(mo), genc], out)]
+    lines = [Line("corr", "binarize", [reord or "none", gram.enc_markov(mo), genc], out, canon=gram.canon_grammar)]
     if mo is None:
         lines.append(Line("pred", "P.C07.unbin", [reord or "none", genc, out]))
     # every rule on its own
